@@ -59,6 +59,14 @@ pub trait Gen: Send {
     fn debug(&self, alternate: bool) -> String;
     /// bincode image (None when the type is not serialisable)
     fn ser(&self) -> Option<Vec<u8>>;
+    /// the same snapshot in a human-readable, self-describing format (serde_json)
+    fn ser_json(&self) -> Option<Vec<u8>> {
+        None
+    }
+    /// `Deserialize::deserialize_in_place` of a bincode snapshot into this generator
+    fn de_in_place(&mut self, _bytes: &[u8]) -> Option<Result<(), String>> {
+        None
+    }
     fn as_any(&self) -> &dyn Any;
     /// JitterRng-only operations
     fn jitter(&mut self) -> Option<&mut dyn JitterOps> {
@@ -87,6 +95,10 @@ pub trait JitterOps {
     fn half_pending(&self) -> bool;
     /// readings consumed so far from this generator's own timer cursor
     fn timer_consumed(&self) -> usize;
+    /// Display text of the error returned by the last test_timer call (None if it returned Ok)
+    fn last_timer_error_display(&self) -> Option<String> {
+        None
+    }
 }
 
 /// A generator type.
@@ -100,6 +112,13 @@ pub trait GenType: Sync + Send {
     fn from_rng_of(&self, parent: &mut dyn Gen) -> Box<dyn Gen>;
     /// bincode deserialisation; None when not serialisable
     fn de(&self, bytes: &[u8]) -> Option<Result<Box<dyn Gen>, String>>;
+    fn de_json(&self, _bytes: &[u8]) -> Option<Result<Box<dyn Gen>, String>> {
+        None
+    }
+    /// two snapshots read one after the other from one byte stream
+    fn de_two(&self, _bytes: &[u8]) -> Option<Result<(Box<dyn Gen>, Box<dyn Gen>), String>> {
+        None
+    }
     /// Monomorphised exhaustive sweeps (2^k elements); returns the number of elements enumerated
     /// and the first counterexample, if any.
     fn sweep(&self, job: &SweepJob) -> SweepResult;
@@ -147,6 +166,10 @@ pub trait Registry: Sync + Send {
     fn jitter_info(&self) -> &TypeInfo;
     /// IsaacArray<u32>/<u64> PartialEq probe: returns (pairs compared, first failure)
     fn isaac_array_probe(&self) -> (u64, Option<String>);
+    /// number of `==` evaluations so far in which `!=` was not its negation
+    fn eq_ne_inconsistencies(&self) -> u64;
+    /// (format calls made, first panic) of Debug-formatting the public seed wrapper type with many flag combinations
+    fn seed_type_format_probe(&self) -> (u64, Option<String>);
     /// static inventory of possible hidden-state constructs per crate (informational)
     fn source_inventory(&self) -> Vec<(String, String, usize)>;
 }
